@@ -322,22 +322,15 @@ func (o childOut) kind() string {
 
 // ---------------------------------------------------------------- check
 
-var flatCache = map[string]bool{}
+// frameBound: every frame of every program of the space needs at most this many value-stack slots (receiver,
+// parameters, locals, temporaries and the outgoing call's receiver and arguments; counted by hand per program and
+// confirmed by running the space on a tree with the reallocation defects repaired). The VM checks for growth only at
+// method calls and then guarantees 30 % of the current size, so an initial size L with 0.3·L < frameBound may be
+// overrun by a single frame: deviations there are reported under their own ("arguable") signature.
+const frameBound = 19
 
-// flatFails: does the flat control program (no recursion, no closures, no generators: only the top-level frame is
-// ever pending, so no frame or upvalue needs rebasing when the stack grows) deviate at this configuration as well?
-// Then the initial stack is smaller than what a single frame needs before the next growth check.
-func flatFails(r *engine.R, cfg config) bool {
-	if v, ok := flatCache[cfg.Name]; ok {
-		return v
-	}
-	p := flatProgram()
-	ref := runChild(p, refConfig)
-	got := runChild(p, cfg)
-	r.Count("calibration_runs_of_flat_control", 2)
-	bad := got.outcome() != ref.outcome()
-	flatCache[cfg.Name] = bad
-	return bad
+func arguable(cfg config) bool {
+	return cfg.InitSlots > 0 && 0.3*float64(cfg.InitSlots) < frameBound
 }
 
 func checkProgram(r *engine.R, p program, cfgs []config) {
@@ -386,14 +379,11 @@ func checkProgram(r *engine.R, p program, cfgs []config) {
 		input := map[string]any{"program": p.Src, "config": cfg.Name, "env": cfg.Env, "base_env": baseEnv(p), "pool": []int{cfg.PoolN, cfg.PoolQ}}
 		detail := fmt.Sprintf("program %s, configuration %s\n--- %s: %s\n--- %s: %s\n%s\n--- program:\n%s", p.ID, cfg.Name, refConfig.Name, want, cfg.Name, g, firstN(got.Stack+got.Stderr, 1500), p.Src)
 		switch {
-		case cfg.Class == "stack" && p.Kind == "flat":
-			r.Violation(fmt.Sprintf("flat program (no recursion, no closures) deviates at a tiny initial value stack init<=%d", tinyClass(cfg.InitSlots)), detail, input)
-			r.Outcome("deviates: flat program at tiny initial stack")
-		case cfg.Class == "stack" && cfg.InitSlots > 0 && flatFails(r, cfg):
-			// arguable region: the initial stack is smaller than what one frame needs (there is no growth check inside a
-			// frame); reported apart from the reallocation defects
-			r.Violation(fmt.Sprintf("initial value stack smaller than a single frame needs (flat control program fails too) init<=%d", tinyClass(cfg.InitSlots)), detail, input)
-			r.Outcome("deviates: tiny initial stack")
+		case cfg.Class == "stack" && arguable(cfg):
+			// arguable region of the property's proviso ("as long as no stack limit is exhausted"): the initial stack may be
+			// smaller than what one frame needs before the next growth check; reported apart from the reallocation defects
+			r.Violation("initial value stack below 64 slots: a single frame may overrun the 30 % headroom guaranteed between growth checks (arguable region)", detail, input)
+			r.Outcome("deviates: initial stack below one frame's need (" + got.kindCoarse() + ")")
 		case cfg.Class == "stack":
 			r.Violation("value-stack growth changes the result: "+liveWhat(p), detail, input)
 			r.Outcome("deviates: stack growth (" + got.kindCoarse() + ")")
@@ -406,8 +396,11 @@ func checkProgram(r *engine.R, p program, cfgs []config) {
 }
 
 func liveWhat(p program) string {
-	if p.Kind == "plain" {
+	switch p.Kind {
+	case "plain":
 		return "plain recursion (no closures, no generators)"
+	case "flat":
+		return "flat program (no recursion, no closures, no generators)"
 	}
 	return "live " + p.Kind
 }
@@ -474,7 +467,7 @@ func main() {
 	engine.Main(&engine.Spec{
 		Prop:  "C10",
 		Level: "exploration",
-		Rule: "programs {plain recursion (control), closure with an open upvalue that is not on the call stack during growth, closure on the call stack during growth, a closure per recursion level, " +
+		Rule: "programs {flat top-level program, plain recursion, closure with an open upvalue that is not on the call stack during growth, closure on the call stack during growth, a closure per recursion level, " +
 			"closure/method mutual recursion, closures over locals/parameters/loop variables called before and after the defining frame returns, generators resumed across growth, generator calling deep recursion, " +
 			"generator handed down the recursion, async functions (fan-out, with closures, nested awaits)} × recursion depth {1, 10, 100, 1000} × configurations " +
 			"{ELK_INIT_VALUE_STACK_SIZE = 8, 16, 32, 64, 256 slots; ELK_MAX_VALUE_STACK_SIZE ladder 256..16384 slots at init=64 and 4096 at the default initial size; ELK_CALL_STACK_SIZE = 64 frames (alone and with init=64); " +
@@ -484,7 +477,8 @@ func main() {
 		Assume: []string{
 			"the outcome at the default configuration is the reference (programs whose default run fails by a Go panic are recorded as having no reference)",
 			"exhaustion of a lowered MAX_VALUE_STACK_SIZE / CALL_STACK_SIZE is recognised by the VM's panic messages 'maximum value stack size exceeded' / 'call stack overflow'",
-			"a deviation at an initial size at which the closure-free control program of the same depth deviates as well is attributed to the missing in-frame growth check (reported under its own signature)",
+			"no frame of the space needs more than 19 value-stack slots; deviations at initial sizes L with 0.3·L < 19 (the headroom the VM guarantees between growth checks) are reported under one separate 'arguable region' signature",
+			"a pair that does not finish within 10 minutes (after one retry) is recorded as not judged, never as a violation",
 			"nested task spawning is only run with queue capacity 256 (bounded-queue capacity deadlock is property C16)",
 		},
 		Run:              run,
